@@ -264,21 +264,23 @@ Section Transforms.
 
   (* ---------------- constraints.impose_at *)
   Inductive target := TScalar (v : T) | TList (vs : list T).
-  (* x = asarray(list(x)); x[[i for i in index if i < len(x)]] = target *)
+  (* x = asarray(list(x))
+     list target:   at = [(i,t) for (i,t) in zip(index, target) if i < len(x)]; if at: x[[i for (i,t) in at]] = [t for (i,t) in at]
+     scalar target: x[[i for i in index if i < len(x)]] = target
+     only i >= len(x) is filtered, so i < -len(x) still raises IndexError (numpy checks every index before assigning) *)
   Definition impose_at (index : list Z) (t : target) (x : list T) : option (list T) :=
     let n := length x in
-    let kept := filter (fun i => (i <? Z.of_nat n)%Z) index in
-    match norm_all n kept with
-    | None => None                                   (* IndexError: i < -len(x) *)
-    | Some ps =>
-        match t with
-        | TScalar v => Some (scatter x ps (repeat v (length ps)))
-        | TList vs =>
-            if Nat.eqb (length vs) (length ps) then Some (scatter x ps vs)
-            else match vs with
-                 | [v] => Some (scatter x ps (repeat v (length ps)))
-                 | _ => None                          (* ValueError: shape mismatch *)
-                 end
+    match t with
+    | TScalar v =>
+        match norm_all n (filter (fun i => (i <? Z.of_nat n)%Z) index) with
+        | None => None                                 (* IndexError: i < -len(x) *)
+        | Some ps => Some (scatter x ps (repeat v (length ps)))
+        end
+    | TList vs =>
+        let at_ := filter (fun iv => (fst iv <? Z.of_nat n)%Z) (combine index vs) in
+        match norm_all n (map fst at_) with
+        | None => None                                 (* IndexError: i < -len(x) *)
+        | Some ps => Some (scatter x ps (map snd at_))
         end
     end.
   (* what the docstring promises: targets are paired with the indices, indices beyond the end are dropped *)
@@ -287,20 +289,27 @@ Section Transforms.
               (combine index vs) x.
 
   (* ---------------- tools.connected / constraints.impose_as *)
+  (* tools.connected: a dict {key: set of members} in insertion order.  For each pair (i,j), i <> j: ki / kj = key of the FIRST group
+     holding i / j (as key or member); neither -> new group {i: {j}}; one -> the other index joins that group; both and different ->
+     collapse[ki].update(collapse.pop(kj)); collapse[ki].add(kj)   (the pair bridges two groups: merge them) *)
   Definition addZ (z : Z) (l : list Z) : list Z := if memZ z l then l else l ++ [z].
-  Fixpoint connect1 (i j : Z) (c : list (Z * list Z)) : option (list (Z * list Z)) :=
-    match c with
-    | [] => None
-    | (k, v) :: r =>
-        if (Z.eqb i k || memZ i v)%bool then Some ((k, addZ j v) :: r)
-        else if (Z.eqb j k || memZ j v)%bool then Some ((k, addZ i v) :: r)
-        else match connect1 i j r with Some r' => Some ((k, v) :: r') | None => None end
-    end.
-  Definition connected (pairs : list (Z * Z)) : list (Z * list Z) :=
-    fold_left (fun c ij => match connect1 (fst ij) (snd ij) c with
-                           | Some c' => c'
-                           | None => c ++ [(fst ij, [snd ij])]
-                           end) pairs [].
+  Definition holds (z : Z) (kv : Z * list Z) : bool := (Z.eqb z (fst kv) || memZ z (snd kv))%bool.
+  Definition find_key (z : Z) (c : list (Z * list Z)) : option Z := option_map fst (find (holds z) c).
+  Definition members_of (k : Z) (c : list (Z * list Z)) : list Z :=
+    match find (fun kv => Z.eqb (fst kv) k) c with Some kv => snd kv | None => [] end.
+  Definition add_to (k : Z) (zs : list Z) (c : list (Z * list Z)) : list (Z * list Z) :=
+    map (fun kv => if Z.eqb (fst kv) k then (fst kv, fold_left (fun v z => addZ z v) zs (snd kv)) else kv) c.
+  Definition remove_key (k : Z) (c : list (Z * list Z)) : list (Z * list Z) := filter (fun kv => negb (Z.eqb (fst kv) k)) c.
+  Definition connect_step (c : list (Z * list Z)) (ij : Z * Z) : list (Z * list Z) :=
+    let (i, j) := ij in
+    if Z.eqb i j then c
+    else match find_key i c, find_key j c with
+         | None, None => c ++ [(i, [j])]
+         | Some ki, None => add_to ki [j] c
+         | None, Some kj => add_to kj [i] c
+         | Some ki, Some kj => if Z.eqb ki kj then c else add_to ki (members_of kj c ++ [kj]) (remove_key kj c)
+         end.
+  Definition connected (pairs : list (Z * Z)) : list (Z * list Z) := fold_left connect_step pairs [].
 
   (* try: x[k] = x[i]  except IndexError: pass *)
   Definition copy_entry (x : list T) (k i : Z) : list T :=
@@ -373,8 +382,10 @@ Section Transforms.
                              end) mask x.
 
   Inductive source := SIdx (j : Z) | SMul (j0 : Z) (c : T).     (* {i: j}  |  {i: (j0, c)}, (j0,) meaning c = 1 *)
-  (* is_array: x is a numpy array -- x[(j0, c)] then raises IndexError (not TypeError) and the entry is skipped *)
-  Definition synchronized (is_array : bool) (mask : list (Z * source)) (x : list T) : list T :=
+  (* try: x[i] = x[j]
+     except (TypeError, IndexError): if not isinstance(j, tuple): continue; j0,j1 = ...; try: x[i] = j1*x[j0] except IndexError: pass
+     (lists raise TypeError, numpy arrays IndexError on a tuple source: both take the tuple branch) *)
+  Definition synchronized (mask : list (Z * source)) (x : list T) : list T :=
     fold_left (fun acc kv =>
       let n := length acc in
       match snd kv with
@@ -382,15 +393,15 @@ Section Transforms.
                   | Some pj, Some pi => set_nth acc pi (nth pj acc (zero N))
                   | _, _ => acc
                   end
-      | SMul j0 c => if is_array then acc
-                     else match norm_idx n j0, norm_idx n (fst kv) with
-                          | Some pj, Some pi => set_nth acc pi (mul N c (nth pj acc (zero N)))
-                          | _, _ => acc
-                          end
+      | SMul j0 c => match norm_idx n j0, norm_idx n (fst kv) with
+                     | Some pj, Some pi => set_nth acc pi (mul N c (nth pj acc (zero N)))
+                     | _, _ => acc
+                     end
       end) mask x.
 
   (* ---------------- tools.suppress / suppressed, clipped *)
   Definition small (tol v : T) : bool := lt (abs N v) tol.
+  (* clip=False: n = number of kept entries; if n: kept entries += sum(suppressed)/n   (n = 0: nothing is spread) *)
   Definition suppress (tol : T) (clip : bool) (x : list T) : list T :=
     let cnt := length (filter (fun v => negb (small tol v)) x) in
     let s := fold_left (add N) (filter (small tol) x) (zero N) in
